@@ -4,6 +4,7 @@ use crate::engine::Args;
 pub mod c01;
 pub mod c02;
 pub mod c03;
+pub mod c03_h2;
 pub mod c04;
 pub mod c05;
 pub mod c06;
